@@ -1,6 +1,8 @@
 package checks
 
 import (
+	"math/rand"
+
 	"verif/cons"
 	"verif/ev"
 )
@@ -17,6 +19,19 @@ func runC02(c *ev.Ctx) {
 	c.Assumptions = []string{"reference ancestry = transitive closure over the parents lists", "cheaters < 1/3"}
 	o := &campOpts{nDAGs: c.Pick(300, 6000), orders: c.Pick(4, 6), maxN: c.Pick(10, 16), minEvents: 60, maxEvents: c.Pick(350, 700), maxEpochs: 3,
 		cheat: cons.CheatBelowThird, probeRoots: true,
+		tweak: func(r *rand.Rand, i int, cfg *cons.GenCfg) *cons.GenCfg {
+			if i%10 != 8 {
+				return nil
+			}
+			// slow spread with a sleeper: 6-8 validators, one other parent per event, the canonical-first validator wakes up
+			// now and then linking to every tip (a root with a Lamport time above everything) and falls asleep again, while
+			// some of the others go on for a while without it: consecutive Atropoi need not observe one another
+			plans := cons.RandomPlans(r, 1, -(6 + r.Intn(3)), r.Intn(2) == 0, cons.CheatNone)
+			for k := range plans[0].Lag {
+				plans[0].Lag[k] = 0
+			}
+			return &cons.GenCfg{Plans: plans, EventsPer: 70 * len(plans[0].IDs), MinParents: 1, MaxParents: 2, Sleeper: true}
+		},
 		mine: map[string]bool{cons.DDelivered: true, cons.DDeliveredTwice: true, cons.DFrameNumber: true, cons.DAtroposNotRoot: true, cons.DParentLater: true, cons.DCrit: true},
 		nontrivial: func(d *cons.DAG, ts []*cons.Trace) bool {
 			for _, t := range ts {
